@@ -1512,9 +1512,11 @@ func (l *lexer) scanCmdSubst(r rune) bool {
 		left := l.pos
 		// nest
 		ll := &lexer{
+			env:      l.env,
 			name:     l.name,
 			r:        l.r,
 			cmdSubst: r,
+			aliases:  l.aliases,
 			token:    make(chan ast.Node),
 			done:     make(chan struct{}),
 			cancel:   make(chan struct{}),
